@@ -1406,3 +1406,98 @@ def m_string_as_bytes(I, st, fr, args, path, gargs, t):
     if isinstance(v, SliceVal):
         return SliceVal(v.len, 'bytes')
     return SliceVal(st.fresh('usize', 0, 2 ** 62, 'strlen'), 'bytes')
+
+
+# ----------------------------------------------------------------------------- small additions (idioms seen in behaviour-preserving rewrites)
+@model(r'core::cmp::Ordering::then')
+def m_ordering_then(I, st, fr, args, path, gargs, t):
+    a, b = args
+    if isinstance(a, Agg) and a.variant is not None:
+        return b if a.variant == 1 else a          # Equal (index 1: Less = -1, Equal = 0, Greater = 1 -> variant indices 0, 1, 2)
+    raise Stop('Ordering::then on %r' % (a,))
+
+
+@model(r'core::cmp::Ordering::then_with')
+def m_ordering_then_with(I, st, fr, args, path, gargs, t):
+    a = args[0]
+    if isinstance(a, Agg) and a.variant is not None:
+        if a.variant != 1:
+            return a
+        return I.push_closure(st, fr, args[1], [], t['dest'], t['target'])
+    raise Stop('Ordering::then_with on %r' % (a,))
+
+
+@model(r'core::convert::identity')
+def m_identity(I, st, fr, args, path, gargs, t):
+    return args[0]
+
+
+@model(r'core::option::Option::<T>::(take|replace)')
+def m_opt_take(I, st, fr, args, path, gargs, t):
+    r = args[0]
+    if not isinstance(r, Ref):
+        raise Stop('Option::take on %r' % (r,))
+    old = deref(I, st, r)
+    new = none() if path.endswith('take') else some(args[1])
+    tf = I.frame_of(st, r.frame)
+    tf.L[r.local] = I.updated(st, tf, tf.L.get(r.local), list(r.proj), new)
+    return old
+
+
+@model(r'core::option::Option::<T>::(as_ref|as_mut)')
+def m_opt_as_ref(I, st, fr, args, path, gargs, t):
+    r = args[0]
+    v = deref(I, st, r)
+    if not (isinstance(r, Ref) and isinstance(v, Agg)):
+        raise Stop('Option::as_ref on %r' % (r,))
+    if v.variant == 0:
+        return none()
+    return some(Ref(r.frame, r.local, list(r.proj) + [{'downcast': 1}, {'field': 0}]))
+
+
+@model(r'core::option::Option::<T>::is_none_or')
+def m_opt_is_none_or(I, st, fr, args, path, gargs, t):
+    v = args[0]
+    if v.variant == 0:
+        return K(1, 'bool')
+    return I.push_closure(st, fr, args[1], [v.fields[0]], t['dest'], t['target'])
+
+
+@model(r'core::result::Result::<T, E>::is_(ok|err)_and')
+def m_res_is_and(I, st, fr, args, path, gargs, t):
+    v = args[0]
+    want = 0 if 'is_ok_and' in path else 1
+    if v.variant != want:
+        return K(0, 'bool')
+    return I.push_closure(st, fr, args[1], [v.fields[0]], t['dest'], t['target'])
+
+
+@model(r'core::num::<impl ' + INT + r'>::(checked_shl|checked_shr|wrapping_shl|wrapping_shr)')
+def m_checked_shift(I, st, fr, args, path, gargs, t):
+    m = re.match(r'core::num::<impl ' + INT + r'>::(checked|wrapping)_(shl|shr)', path)
+    ty, mode, op = m.group(1), m.group(2), m.group(3)
+    bits = {'8': 8, '16': 16, '32': 32, '64': 64, '128': 128, 'size': 64}[ty[1:]]
+    klo, khi = st.itv(args[1])
+    if klo != khi:
+        raise Stop('%s with a symbolic shift amount' % path)
+    if klo >= bits:
+        if mode == 'checked':
+            return none()
+        klo %= bits
+    v = I.shift(st, 'Shl' if op == 'shl' else 'Shr', args[0], K(klo, 'u32'), ty)
+    return some(v) if mode == 'checked' else v
+
+
+@model(r'core::num::<impl ' + INT + r'>::(cast_signed|cast_unsigned)')
+def m_cast_sign(I, st, fr, args, path, gargs, t):
+    ty = re.match(r'core::num::<impl ' + INT, path).group(1)
+    to = ('i' if ty[0] == 'u' else 'u') + ty[1:]
+    return I.cast(st, 'IntToInt', args[0], to)
+
+
+@model(r'core::num::<impl ' + INT + r'>::is_power_of_two')
+def m_is_pow2(I, st, fr, args, path, gargs, t):
+    lo, hi = st.itv(args[0])
+    if lo == hi:
+        return K(int(lo > 0 and lo & (lo - 1) == 0), 'bool')
+    raise Stop('is_power_of_two of a symbolic value')
